@@ -40,7 +40,9 @@ func AddTrailers(
 ) {
 	for _, header := range src {
 		for _, val := range header.Value {
-			dest.Add(http.TrailerPrefix+header.Name, val)
+			// The prefix defeats the canonicalization done by Add, so all
+			// spellings of a name must be mapped to the same key here.
+			dest.Add(http.TrailerPrefix+http.CanonicalHeaderKey(header.Name), val)
 		}
 	}
 }
